@@ -229,9 +229,9 @@ func checkCase(c Case) *h.Failure {
 	if kind, detail := checkLexer(c.Src); kind != "" {
 		return fail(kind, detail, "")
 	}
-	r, ok := parseWithWatchdog(c.Src, 20*time.Second)
+	r, ok := parseWithWatchdog(c.Src, 90*time.Second)
 	if !ok {
-		return fail("hang", "parser.Parse did not return within 20 s on an input of "+strconv.Itoa(len(c.Src))+" bytes", "")
+		return fail("hang", "parser.Parse did not return within 90 s on an input of "+strconv.Itoa(len(c.Src))+" bytes", "")
 	}
 	if r.crash != nil {
 		return fail(r.crash.Class, r.crash.Msg, rec.TopFrame(r.crash.Stack))
